@@ -18,8 +18,13 @@ namespace AssignmentHandlers {
 // strings, float_value / double_value / quad_value for floating members,
 // value for everything else. The declared type of the cell is kept, so a
 // double member stays a double whatever the type of the right-hand side is.
-void store_typed_value_in_member_cell(Variable &cell,
-                                      const TypedValue &typed_value) {
+//
+// An integer cell (tiny, short, int, long, char) takes the value under the rule
+// of a direct store to a variable of that declared type: a negative value for
+// an unsigned member is clamped to 0, an out-of-range value is a range error.
+void store_typed_value_in_member_cell(Interpreter &interpreter, Variable &cell,
+                                      const TypedValue &typed_value,
+                                      const std::string &target_name) {
     if (typed_value.is_string()) {
         cell.str_value = typed_value.string_value;
         cell.type = TYPE_STRING;
@@ -57,14 +62,81 @@ void store_typed_value_in_member_cell(Variable &cell,
         cell.quad_value = typed_value.as_quad();
         cell.value = static_cast<int64_t>(typed_value.as_double());
     } else {
-        cell.value = typed_value.is_numeric() ? typed_value.as_numeric()
-                                              : typed_value.value;
+        int64_t new_value = typed_value.is_numeric() ? typed_value.as_numeric()
+                                                     : typed_value.value;
+        if (cell_is_integral && !cell.is_pointer && !cell.is_array &&
+            !cell.is_struct && !cell.is_function_pointer &&
+            typed_value.numeric_type != TYPE_POINTER) {
+            new_value = interpreter.range_checked_store_value(
+                cell_type, cell.is_unsigned, new_value, target_name);
+        }
+        cell.value = new_value;
         if (!cell_is_integral) {
             cell.type = typed_value.numeric_type;
         }
     }
     cell.is_assigned = true;
 }
+
+namespace {
+bool is_range_checked_integer_type(TypeInfo type) {
+    return type == TYPE_TINY || type == TYPE_SHORT || type == TYPE_INT ||
+           type == TYPE_LONG || type == TYPE_CHAR;
+}
+
+// Declared type of the plain integer member `member_name` of the struct value
+// `owner` (`cell` is its current struct_members entry, or nullptr). The struct
+// definition decides: a cell can have been re-typed by an earlier store of a
+// value of another type. Returns false for a member that is not a plain
+// integer (floating, string, bool, pointer, array, struct, enum, union,
+// generic parameter that is not bound to an integer type).
+bool declared_integer_member_type(Interpreter &interpreter,
+                                  const Variable *owner,
+                                  const std::string &member_name,
+                                  const Variable *cell, TypeInfo &type,
+                                  bool &is_unsigned) {
+    if (cell && (cell->is_pointer || cell->is_array || cell->is_struct ||
+                 cell->is_function_pointer || cell->is_enum)) {
+        return false;
+    }
+    if (owner && !owner->struct_type_name.empty()) {
+        const StructDefinition *def =
+            interpreter.find_struct_definition(owner->struct_type_name);
+        const StructMember *member = def ? def->find_member(member_name)
+                                         : nullptr;
+        if (member && member->type != TYPE_UNKNOWN) {
+            if (member->is_pointer || member->is_reference ||
+                member->array_info.is_array() ||
+                !is_range_checked_integer_type(member->type)) {
+                return false;
+            }
+            type = member->type;
+            is_unsigned = member->is_unsigned;
+            return true;
+        }
+    }
+    if (cell && is_range_checked_integer_type(cell->type)) {
+        type = cell->type;
+        is_unsigned = cell->is_unsigned;
+        return true;
+    }
+    return false;
+}
+
+// The right-hand side is a plain integer (not a string, floating point value,
+// struct or pointer)
+bool is_integer_typed_value(const TypedValue &typed_value) {
+    if (typed_value.is_string() || typed_value.is_struct() ||
+        typed_value.is_floating() || !typed_value.is_numeric()) {
+        return false;
+    }
+    TypeInfo t = typed_value.type.type_info;
+    TypeInfo n = typed_value.numeric_type;
+    return t != TYPE_STRING && t != TYPE_FLOAT && t != TYPE_DOUBLE &&
+           t != TYPE_QUAD && t != TYPE_POINTER && n != TYPE_POINTER &&
+           n != TYPE_FLOAT && n != TYPE_DOUBLE && n != TYPE_QUAD;
+}
+} // namespace
 
 void execute_member_assignment(StatementExecutor *executor,
                                Interpreter &interpreter, const ASTNode *node) {
@@ -185,14 +257,17 @@ void execute_member_assignment(StatementExecutor *executor,
             if (existing_it != members.end()) {
                 // 宣言された型を保ったまま値だけを書き換える
                 // （double / string の値が失われないようにする）
-                store_typed_value_in_member_cell(existing_it->second,
-                                                 typed_value);
+                store_typed_value_in_member_cell(
+                    interpreter, existing_it->second, typed_value,
+                    "(*pointer)." + member_name);
             } else {
                 Variable new_value;
                 new_value.type = typed_value.is_string()
                                      ? TYPE_STRING
                                      : typed_value.numeric_type;
-                store_typed_value_in_member_cell(new_value, typed_value);
+                store_typed_value_in_member_cell(interpreter, new_value,
+                                                 typed_value,
+                                                 "(*pointer)." + member_name);
                 members[member_name] = new_value;
             }
         }
@@ -327,6 +402,15 @@ void execute_member_assignment(StatementExecutor *executor,
             return "";
         };
 
+        // 宣言されたメンバー型（整数メンバーなら範囲チェックの対象）
+        TypeInfo declared_member_type = TYPE_UNKNOWN;
+        bool declared_member_unsigned = false;
+        bool member_is_declared_integer = declared_integer_member_type(
+            interpreter, parent_struct, final_member,
+            final_member_it != members.end() ? &final_member_it->second
+                                             : nullptr,
+            declared_member_type, declared_member_unsigned);
+
         // 親のstruct_membersに直接代入（参照経由）
         auto &member_ref = members[final_member];
 
@@ -355,6 +439,18 @@ void execute_member_assignment(StatementExecutor *executor,
             if (typed_value.is_floating()) {
                 member_ref.double_value = typed_value.as_double();
                 member_ref.type = typed_value.type.type_info;
+            } else if (member_is_declared_integer &&
+                       is_integer_typed_value(typed_value)) {
+                // oa[i].m = v, o.in.m = v: same rule as the direct store
+                // s.m = v (unsigned clamp, range check of the declared type);
+                // the member keeps its declared type
+                member_ref.value = interpreter.range_checked_store_value(
+                    declared_member_type, declared_member_unsigned,
+                    typed_value.as_numeric(),
+                    build_base_path(member_access->left.get()) + "." +
+                        final_member);
+                member_ref.type = declared_member_type;
+                member_ref.is_unsigned = declared_member_unsigned;
             } else {
                 member_ref.value = typed_value.as_numeric();
                 member_ref.type = typed_value.type.type_info;
@@ -517,14 +613,17 @@ void execute_member_assignment(StatementExecutor *executor,
             if (existing_it != members.end()) {
                 // 宣言された型を保ったまま値だけを書き換える
                 // （double / string の値が失われないようにする）
-                store_typed_value_in_member_cell(existing_it->second,
-                                                 typed_value);
+                store_typed_value_in_member_cell(
+                    interpreter, existing_it->second, typed_value,
+                    "(*pointer)." + member_name);
             } else {
                 Variable new_value;
                 new_value.type = typed_value.is_string()
                                      ? TYPE_STRING
                                      : typed_value.numeric_type;
-                store_typed_value_in_member_cell(new_value, typed_value);
+                store_typed_value_in_member_cell(interpreter, new_value,
+                                                 typed_value,
+                                                 "(*pointer)." + member_name);
                 members[member_name] = new_value;
             }
         }
@@ -641,15 +740,18 @@ void execute_member_assignment(StatementExecutor *executor,
             // 文字列変数・double なども含め、右辺の型に応じたフィールドへ格納する
             TypedValue typed_value =
                 interpreter.evaluate_typed(node->right.get());
-            store_typed_value_in_member_cell(member_var, typed_value);
+            const std::string target_name = obj_name + "." + member_name;
+            store_typed_value_in_member_cell(interpreter, member_var,
+                                             typed_value, target_name);
 
             // v0.13.1: 参照変数自体のstruct_membersも更新（エイリアシング）
             auto &base_members = base_var->get_struct_members();
             auto ref_member_it = base_members.find(member_name);
             if (ref_member_it != base_members.end() &&
                 &ref_member_it->second != &member_var) {
-                store_typed_value_in_member_cell(ref_member_it->second,
-                                                 typed_value);
+                store_typed_value_in_member_cell(
+                    interpreter, ref_member_it->second, typed_value,
+                    target_name);
             }
 
             // ダイレクトアクセス変数も更新
@@ -661,7 +763,8 @@ void execute_member_assignment(StatementExecutor *executor,
                 Variable *direct_var =
                     interpreter.find_variable(direct_var_name);
                 if (direct_var) {
-                    store_typed_value_in_member_cell(*direct_var, typed_value);
+                    store_typed_value_in_member_cell(interpreter, *direct_var,
+                                                     typed_value, target_name);
                 }
             }
         }
@@ -1080,12 +1183,14 @@ void execute_arrow_assignment(StatementExecutor *executor,
 
     // 右辺を評価
     Variable new_value;
+    bool value_is_integer = false;
     if (node->right->node_type == ASTNodeType::AST_STRING_LITERAL) {
         new_value.str_value = node->right->str_value;
         new_value.type = TYPE_STRING;
     } else {
         TypedValue typed_value = interpreter.evaluate_typed(node->right.get());
         new_value.type = typed_value.type.type_info;
+        value_is_integer = is_integer_typed_value(typed_value);
 
         // 型に応じて適切なフィールドに値を格納
         if (typed_value.type.type_info == TYPE_STRING) {
@@ -1110,6 +1215,30 @@ void execute_arrow_assignment(StatementExecutor *executor,
         }
     }
     new_value.is_assigned = true;
+
+    // ptr->member = v for an integer member: the value a direct store
+    // s.member = v would keep (unsigned clamp, range check of the member's
+    // declared type); the cell keeps the declared type and signedness
+    auto apply_declared_integer_member_type = [&](const Variable *owner) {
+        if (!value_is_integer || !owner) {
+            return;
+        }
+        const auto &owner_members = owner->get_struct_members();
+        auto existing = owner_members.find(member_name);
+        TypeInfo declared_type = TYPE_UNKNOWN;
+        bool declared_unsigned = false;
+        if (!declared_integer_member_type(
+                interpreter, owner, member_name,
+                existing != owner_members.end() ? &existing->second : nullptr,
+                declared_type, declared_unsigned)) {
+            return;
+        }
+        new_value.value = interpreter.range_checked_store_value(
+            declared_type, declared_unsigned, new_value.value,
+            "pointer->" + member_name);
+        new_value.type = declared_type;
+        new_value.is_unsigned = declared_unsigned;
+    };
 
     // ポインタ経由のアクセスの場合、ポインタ先の構造体レイアウトに従って処理
     // ジェネリック構造体の場合は生メモリに直接書き込む
@@ -1175,6 +1304,7 @@ void execute_arrow_assignment(StatementExecutor *executor,
             }
 
             // struct_membersに代入
+            apply_declared_integer_member_type(target_var);
             auto &members = target_var->get_struct_members();
             members[member_name] = new_value;
 
@@ -1195,6 +1325,8 @@ void execute_arrow_assignment(StatementExecutor *executor,
         size_t offset = 0;
         bool member_found = false;
         TypeInfo member_type = TYPE_UNKNOWN;
+        bool member_is_unsigned = false;
+        bool member_is_pointer = false;
 
         for (const auto &member : struct_def->members) {
             // ジェネリック型パラメータを解決
@@ -1276,6 +1408,8 @@ void execute_arrow_assignment(StatementExecutor *executor,
             if (member.name == member_name) {
                 member_found = true;
                 member_type = member.type;
+                member_is_unsigned = member.is_unsigned;
+                member_is_pointer = member.is_pointer;
 
                 // ジェネリック型パラメータの場合、TypeContextで解決
                 if (member_type == TYPE_UNKNOWN && !member.type_alias.empty()) {
@@ -1338,6 +1472,15 @@ void execute_arrow_assignment(StatementExecutor *executor,
 
         // メンバーのアドレスを計算
         char *member_addr = base_addr + offset;
+
+        // 整数メンバー（T が整数型に束縛されたジェネリックメンバーを含む）は
+        // 宣言型で範囲チェックする。下の書き込みは宣言型の幅に切り詰めるため、
+        // 範囲外の値は黙ってラップしていた
+        if (value_is_integer && !member_is_pointer) {
+            new_value.value = interpreter.range_checked_store_value(
+                member_type, member_is_unsigned, new_value.value,
+                "pointer->" + member_name);
+        }
 
         // 型に応じてメモリに書き込む
         switch (member_type) {
@@ -1422,6 +1565,7 @@ void execute_arrow_assignment(StatementExecutor *executor,
 
         // struct_membersに代入
         // v0.13.1: 参照がある場合はそれを使用
+        apply_declared_integer_member_type(struct_var);
         auto &members = struct_var->get_struct_members();
         members[member_name] = new_value;
 
